@@ -40,6 +40,8 @@ type Server struct {
 	// until the blob is mounted (POST ?mount=) or uploaded there
 	OtherRepo map[string]bool
 
+	// DashDigests: a lenient registry that also serves a blob asked for as sha256-<hex>
+	DashDigests bool
 	// Down: the registry answers every request with 503 (an outage that lasts as long as the harness says)
 	Down bool
 	// OnNetPoint, if set, is called before every request and every body read while faults are possible (the
@@ -414,6 +416,9 @@ func (s *Server) route(req *http.Request) *http.Response {
 }
 
 func (s *Server) serveBlob(req *http.Request, digest string, ignoreRange bool) *http.Response {
+	if s.DashDigests {
+		digest = strings.Replace(digest, "sha256-", "sha256:", 1)
+	}
 	data, ok := s.Blobs[digest]
 	if !ok || s.OtherRepo[digest] {
 		return s.errJSON(req, 404, "BLOB_UNKNOWN", "blob unknown")
